@@ -202,6 +202,13 @@ def check_c12(tier, seed):
         wl += [hgens.ro_workload(3, None), hgens.ro_workload(4, 1024), hgens.ro_workload(3, 2560)]
     hs = fault_histories(wl, "r", tier, rng, "ro")
     run_batch(out, "faults", "A", hs, spec="Trace_Handle", driver="hdrive")
+    # faults at the reads of `open` itself on a file with two FAT sectors (a table assembled from what could be read), sampled
+    ow = hgens.ro_open_workload(3, 1024)
+    hs = fault_histories([ow], "r", "thorough", rng, "roopen")
+    hs = [h for h in hs if len(h["faults"]["at"]) == 1]
+    if tier == "quick":
+        hs = hs[:: max(1, len(hs) // 150)]
+    run_batch(out, "open_faults", "A", hs, spec="Trace_Handle", driver="hdrive")
     # the same positions failing with ErrorKind::Interrupted, which std's read_exact loops retry silently:
     # a retried transfer must not have moved anything
     hs = fault_histories(wl[:2] if tier == "quick" else wl, "r", "quick" if tier == "quick" else "thorough", rng, "roi", kind="interrupted")
